@@ -5,7 +5,7 @@ import NGF.Model.Proto
 Driver entry for C08.
 
 Encoding (harness/c08/enc.go is the other end). Every string is escaped: characters other than
-letters, digits and `_ . : / -` are written `%<hex code point>;`; `~` is a nil pointer, `*` an empty list.
+letters, digits and `_ . : / -` are written `%<hex code point>$`; `~` is a nil pointer, `*` an empty list.
   cond    = type,status,reason,message,gen,time
   conds   = cond&cond…            entry = ctlr|ref,ref,…|conds          status = entry;entry…
   statuses = status#status…
@@ -33,7 +33,7 @@ def unescL : List Char → Option Nat → List Char → Option (List Char)
   | [], some _, _ => none
   | c :: cs, none, acc => if c == '%' then unescL cs (some 0) acc else unescL cs none (c :: acc)
   | c :: cs, some v, acc =>
-    if c == ';' then unescL cs none (Char.ofNat v :: acc)
+    if c == '$' then unescL cs none (Char.ofNat v :: acc)
     else match hexVal c with
       | some d => unescL cs (some (v * 16 + d)) acc
       | none => none
@@ -46,7 +46,7 @@ def okChar (c : Char) : Bool :=
 def hexDigits (n : Nat) : List Char := (Nat.toDigits 16 n)
 
 def esc (s : String) : String :=
-  String.ofList (s.toList.flatMap fun c => if okChar c then [c] else '%' :: hexDigits c.toNat ++ [';'])
+  String.ofList (s.toList.flatMap fun c => if okChar c then [c] else '%' :: hexDigits c.toNat ++ ['$'])
 
 def parseInt (s : String) : Option Int :=
   if s.startsWith "-" then (s.drop 1).toString.toNat?.map fun n => -(Int.ofNat n)
@@ -179,7 +179,7 @@ def judgeInvocation (k : Kind) (ctlr : String) (lim : Limits) (new prev : Status
     | some s =>
       if same then .error s!"noop-violated inv={idx}"
       else if s != new then .error s!"own-not-replaced inv={idx}"
-      else match statusViolation { lim with minConds := 0 } s with
+      else match statusViolation { lim with minConds := 0 } false s with
         | some v => .error s!"{v} inv={idx}"
         | none => .ok { st with updates := st.updates + 1 }
   else
@@ -202,7 +202,7 @@ def judgeInvocation (k : Kind) (ctlr : String) (lim : Limits) (new prev : Status
       else if own ctlr s != new then .error s!"own-not-replaced inv={idx}"
       else if sameOwnList k ctlr prev new || (!dups && sameOwnSet k ctlr prev new) then
         .error s!"noop-violated inv={idx}"
-      else match statusViolation lim s with
+      else match statusViolation lim true s with
         | some v => .error s!"{v} inv={idx}"
         | none => .ok { st with updates := st.updates + 1 }
 
